@@ -38,6 +38,7 @@ impl InputBuffer {
 impl SimpleOovPlugin {
 // R11: `impl OovProviderPlugin for SimpleOovPlugin { fn provide_oov }` checked as an inherent fn of the same body
 //@extract sudachi/src/plugin/oov/simple_oov/mod.rs :: impl OovProviderPlugin for SimpleOovPlugin :: fn provide_oov
+//@  twin
 //@  ret r
 //@  spec
         requires offset < input_text.sp_nch(), input_text.sp_nch() <= 65535,
